@@ -123,7 +123,7 @@ func useTree(t *tree.Tree) (class string, dump string) {
 		wch <- tree.Trees{Tree: t, Id: 0}
 		close(wch)
 		if _, werr := phyloxml.WritePhyloXML(wch); werr != nil {
-			class = "counts"
+			class = "err" // an error of the writer is not a crash
 		}
 		if ne != nn-1 || nt > nn {
 			class = "counts"
@@ -144,6 +144,16 @@ func useTree(t *tree.Tree) (class string, dump string) {
 		return "panic:" + core.Escape(msg), dump
 	}
 	return class, dump
+}
+
+// useErrTree: a record that carries an error may also carry a half-built tree (PhyloXML: `Tree: t, Err: err`);
+// a consumer that looks at it must not crash either.  "" = no tree came with the error.
+func useErrTree(t *tree.Tree) string {
+	if t == nil || t.Root() == nil {
+		return ""
+	}
+	class, _ := useTree(t)
+	return class
 }
 
 func nestDoc(depth int) []byte {
@@ -239,7 +249,7 @@ func fileCase(mode, format string, in []byte) string {
 	var sb strings.Builder
 	for _, r := range recs {
 		if r.err != nil {
-			fmt.Fprintf(&sb, "%d:err::|", r.id)
+			fmt.Fprintf(&sb, "%d:err:%s:|", r.id, useErrTree(r.tree))
 			continue
 		}
 		class, dump := useTree(r.tree)
@@ -402,7 +412,7 @@ func handle(line string) string {
 		var sb strings.Builder
 		for _, r := range recs {
 			if r.err != nil {
-				fmt.Fprintf(&sb, "%d:err::|", r.id)
+				fmt.Fprintf(&sb, "%d:err:%s:|", r.id, useErrTree(r.tree))
 				continue
 			}
 			class, dump := useTree(r.tree)
